@@ -12,9 +12,11 @@ import (
 	v1 "github.com/fatedier/frp/pkg/config/v1"
 	"github.com/fatedier/frp/pkg/msg"
 	plugin "github.com/fatedier/frp/pkg/plugin/server"
+	httppkg "github.com/fatedier/frp/pkg/util/http"
 	"github.com/fatedier/frp/server/controller"
 	"github.com/fatedier/frp/server/proxy"
 	"github.com/fatedier/frp/verif"
+	"github.com/gorilla/mux"
 )
 
 // Interfaces whose methods do not touch any frp table (metrics sinks, context
@@ -593,4 +595,24 @@ func verif_handleNatHoleReport(ctl *Control, m msg.Message) {
 	verif.Requires(ok, "dispatcher_delivers_registered_type")
 	verif.Requires(ctl.rc != nil && ctl.rc.NatHoleController != nil, "constructed_by_NewControl")
 	ctl.handleNatHoleReport(m)
+}
+
+// registerRouteHandlers (C07 "the frps dashboard / frpc admin APIs: nothing is
+// served unless the exact user name and password are presented"): the root
+// router carries no credential check, and the only route it gets is the
+// liveness probe "/healthz"; besides that route and the NewRoute from which
+// the sub-router is cut, every router call is made on the sub-router, which is
+// given the basic-auth middleware (Use).
+//
+//verif:contract (*~/server.Service).registerRouteHandlers
+//verif:props C07
+func verif_server_registerRouteHandlers(svr *Service, helper *httppkg.RouterRegisterHelper) {
+	root := helper.Router
+	verif.ResetEvents()
+	svr.registerRouteHandlers(helper)
+	verif.Ensures(verif.CallCountWith2("mux.Router).HandleFunc", 0, root, 1, "/healthz") == 1 && verif.CallCountWith("mux.Router).NewRoute", 0, root) == 1, "unauthenticated_router_serves_the_liveness_probe_only")
+	sub := verif.Ret[*mux.Router]("mux.Route).Subrouter", 0)
+	verif.Ensures(verif.CallCount("mux.Route).Subrouter") == 1 && verif.Same(verif.NthArg[*mux.Route]("mux.Route).Subrouter", 0, 0), verif.Ret[*mux.Route]("mux.Router).NewRoute", 0)), "one_sub_router_cut_from_the_root")
+	verif.Ensures(verif.CallCountWith("mux.Router).Use", 0, sub) == 1, "sub_router_carries_the_auth_middleware")
+	verif.Ensures(verif.CallCount("mux.Router).") == 2+verif.CallCountWith("mux.Router).", 0, sub), "every_other_registration_goes_to_the_sub_router")
 }
